@@ -21,6 +21,7 @@ type ctx struct {
 	stats map[string]int
 	work  string
 	curID string
+	stream string // name of the stream being run
 	// measure: account allocations of the segment calls of this line (C11)
 	measure bool
 }
@@ -91,7 +92,7 @@ func main() {
 		}
 		defer w.Close()
 	}
-	c := &ctx{out: bufio.NewWriterSize(w, 1<<20), seed: *seed, n: *n, tier: *tier, stats: map[string]int{}, work: *work}
+	c := &ctx{out: bufio.NewWriterSize(w, 1<<20), seed: *seed, n: *n, tier: *tier, stats: map[string]int{}, work: *work, stream: name}
 	switch mode {
 	case "run":
 		i := 0
